@@ -145,8 +145,8 @@ def real(name, lo=None, hi=None, pos=False, default=None, strict=True):
     return float(v)
 
 
-def fp(name, lo, hi):
-    """IEEE double input variable in [lo, hi] (finite)"""
+def fp(name, lo, hi, default=None):
+    """IEEE double input variable in [lo, hi] (finite); default(rng) = the seeded draw of the reference runs"""
     ST.vars[name] = "fp"
     if ST.mode == "sym":
         from . import fp as F
@@ -162,7 +162,9 @@ def fp(name, lo, hi):
     elif name in ST.drawn:
         v = ST.drawn[name]
     else:
-        if lo > 0 and hi / lo > 100:
+        if default is not None:
+            v = float(default(ST.rng))
+        elif lo > 0 and hi / lo > 100:
             v = math.exp(ST.rng.uniform(math.log(lo), math.log(hi)))
         else:
             v = ST.rng.uniform(lo, hi)
